@@ -50,6 +50,12 @@ _chunksize = 32
 _allow_relative_comparisons = True
 
 
+# A second origin used to tell relative names from absolute ones when comparing rdata.
+# It is as short as a non-root origin can be so that it fits after any name that can be
+# relative to something other than the root.
+_other_origin = dns.name.Name([b"r", b""])
+
+
 class NoRelativeRdataOrdering(dns.exception.DNSException):
     """An attempt was made to do an ordered comparison of one or more
     rdata with relative names.  The only reliable way of sorting rdata
@@ -481,7 +487,22 @@ class Rdata:
             their_relative = True
         if our_relative != their_relative:
             return False
-        return our == their
+        if our != their:
+            return False
+        if our_relative:
+            # Making relative names absolute with the root cannot tell the relative
+            # name "admin" from the absolute name "admin.", so check again with a
+            # second origin: a relative name cannot equal the same absolute name under
+            # both.
+            try:
+                return self.to_digestable(_other_origin) == other.to_digestable(
+                    _other_origin
+                )
+            except dns.name.NameTooLong:
+                # Only a name relative to the root is this long, and that is the case
+                # the first comparison gets right.
+                return True
+        return True
 
     def __ne__(self, other):
         if not isinstance(other, Rdata):
